@@ -82,22 +82,78 @@ def relation(boxes, active, dest):
 
 
 # --------------------------------------------------------------------------
+# options (5th component of a case; a 4-tuple case means "no options")
+#
+# opts = (style, mode, raises, enders, rerun, neighbour)
+#   style  : bit set choosing HOW the same boxwork is declared (does not change what it is):
+#            1 over given as Box object   2 over="" (same level) when the previous box has the same over
+#            4 goact dest given as Box object when already declared   8 dest "next"/None when dest is the next box
+#            16 at(nabe) + do(deed) instead of do(deed, nabe=)   32 acts of different nabes declared interleaved,
+#            goacts first   64 first set through boxer.first after make (instead of bx(first=True))
+#   mode   : 0 Boxer.make + run driven by next()/send()      1 boxes constructed directly (Box(), Act(), Goact()), no make
+#            2 BoxerDoer under a Doist (enter() makes the boxwork; doist.recur() per tick)
+#   raises : list of (box, nabe, idx, tick, ExcName): that act/preact/goact raises ExcName when run at that tick
+#   enders : list of (box, nabe, idx): that act sets the boxer's end bag to True whenever it runs (like EndAct)
+#   rerun  : 1 = after the run, reset the end bag and run the SAME Boxer object a second time (modes 0, 1)
+#   neighbour : 1 = a second Boxer "bxr2" sharing the Hold is driven interleaved and ends early (modes 0, 1)
+NOOPTS = (0, 0, [], [], 0, 0)
+EXC_NAMES = ("ValueError", "KeyError", "TypeError", "OSError", "UnicodeError", "OverflowError", "RuntimeError",
+             "HierError", "KeyboardInterrupt", "SystemExit", "CancelledError", "GeneratorExit", "MemoryError")
+
+
+def parts(case):
+    if len(case) == 4:
+        return case + (NOOPTS,)
+    return case
+
+
+def _exc(name):
+    import asyncio
+    import builtins
+    from hio.hioing import HierError
+    if name == "HierError":
+        return HierError
+    if name == "CancelledError":
+        return asyncio.CancelledError
+    return getattr(builtins, name)
+
+
+# --------------------------------------------------------------------------
 # adapter: the REAL code
 
 def run_impl(case):
     from hio.base.hier import boxing, acting, needing, holding, bagging
-    boxes, first, ticks, endat = case
+    from hio.base import doing
+    boxes, first, ticks, endat, (style, mode, raises, enders, rerun, neighbour) = parts(case)
     acting.ActBase._clearall()
-    st = dict(t=0, log=[])
+    st = dict(t=0, log=[], boxer=None)
+    raising = {}
+    for (b, nb, k, t, nm) in raises:
+        raising.setdefault((b, nb, k, t), nm)      # first entry wins
+    ending = {(b, nb, k) for (b, nb, k) in enders}
+    endkey = ("", "boxer", BOXER, "end")
+    actkey = ("", "boxer", BOXER, "active")
+    hold = holding.Hold()
+    idx = {f"b{i}": i for i in range(len(boxes))}
+
+    def note(i, nabe, k):
+        bx_ = st["boxer"].box
+        hv = hold[actkey].value if (actkey in hold and st["t"] > 0) else None
+        st["log"].append((i, nabe, k, idx[bx_.name] if bx_ is not None else None, idx.get(hv) if hv is not None else None))
+        if (i, nabe, k) in ending:
+            hold[endkey].value = True
+        nm = raising.get((i, nabe, k, st["t"]))
+        if nm:
+            raise _exc(nm)(f"act {i} {nabe} {k}")
 
     def rec(i, nabe, k):
         def deed(**iops):
-            st["log"].append((i, nabe, k))
+            note(i, nabe, k)
         return deed
 
     def pre(i, k, mask):
         def deed(**iops):
-            st["log"].append((i, "predo", k))
+            note(i, "predo", k)
             return bool((mask >> st["t"]) & 1)
         return deed
 
@@ -107,59 +163,179 @@ def run_impl(case):
             self._i, self._j, self._mask = i, j, mask
 
         def __call__(self, **iops):
-            st["log"].append((self._i, "godo", self._j))
+            note(self._i, "godo", self._j)
             return bool((self._mask >> st["t"]) & 1)
 
-    hold = holding.Hold()
-    boxer = boxing.Boxer(name=BOXER, hold=hold)
-
     def fun(H, bx, go, do, on, at, be):
+        made = {}
         for i, (parent, counts, pres, gos) in enumerate(boxes):
-            bx(name=f"b{i}", over=(None if parent < 0 else f"b{parent}"), first=(i == first))
+            if parent < 0:
+                over = None
+            elif (style & 2) and i > 0 and boxes[i - 1][0] == parent:
+                over = ""                      # same level as the previous box
+            elif style & 1:
+                over = made[parent]            # the Box object
+            else:
+                over = f"b{parent}"
+            made[i] = bx(name=f"b{i}", over=over, first=(i == first and (mode == 2 or not (style & 64))))
+            todo = [("predo", pre(i, k, mask)) for k, mask in enumerate(pres)]
+            for nabe, n in zip(NABES8, counts):
+                todo += [(nabe, rec(i, nabe, k)) for k in range(n)]
+            if style & 32:                     # interleave nabes round-robin (per-nabe order is kept)
+                by = {}
+                for nabe, d in todo:
+                    by.setdefault(nabe, []).append(d)
+                todo = []
+                while any(by.values()):
+                    for nabe in list(by):
+                        if by[nabe]:
+                            todo.append((nabe, by[nabe].pop(0)))
+
+            def declare_gos():
+                for j, (dest, mask) in enumerate(gos):
+                    need = RecNeed(i, j, mask, hold=H)
+                    if (style & 8) and dest == i + 1 and dest < len(boxes):
+                        go(None if j % 2 else "next", need)
+                    elif (style & 4) and dest in made:
+                        go(made[dest], need)
+                    else:
+                        go(f"b{dest}", need)
+            if style & 32:
+                declare_gos()
+            for nabe, d in todo:
+                if style & 16:
+                    at(nabe)
+                    do(d)
+                else:
+                    do(d, nabe=nabe)
+            if not (style & 32):
+                declare_gos()
+
+    def build_direct(boxer):
+        made = {}
+        for i, (parent, counts, pres, gos) in enumerate(boxes):
+            b = boxing.Box(name=f"b{i}", over=(made[parent] if parent >= 0 else None), hold=hold)
+            if parent >= 0:
+                made[parent].unders.append(b)
+            boxer.boxes[b.name] = b
+            made[i] = b
+        for i, (parent, counts, pres, gos) in enumerate(boxes):
+            b = made[i]
             for k, mask in enumerate(pres):
-                do(pre(i, k, mask), nabe="predo")
+                b.preacts.append(acting.Act(deed=pre(i, k, mask), nabe="predo", hold=hold))
             for nabe, n in zip(NABES8, counts):
                 for k in range(n):
-                    do(rec(i, nabe, k), nabe=nabe)
+                    getattr(b, boxing.nabeDispatch[nabe]).append(acting.Act(deed=rec(i, nabe, k), nabe=nabe, hold=hold))
             for j, (dest, mask) in enumerate(gos):
-                go(f"b{dest}", RecNeed(i, j, mask, hold=H))
+                b.goacts.append(acting.Goact(dest=made[dest], need=RecNeed(i, j, mask, hold=hold), hold=hold))
+        return made
 
-    boxer.make(fun)
-    endkey = ("", "boxer", BOXER, "end")
     if endkey not in hold:
         hold[endkey] = bagging.Bag()
-    idx = {f"b{i}": i for i in range(len(boxes))}
+    if mode == 2:
+        boxer = boxing.Boxer(name=BOXER, hold=hold, fun=fun)
+    else:
+        boxer = boxing.Boxer(name=BOXER, hold=hold)
+        if mode == 1:
+            made = build_direct(boxer)
+            if first >= 0:
+                boxer.first = made[first]
+        else:
+            if first >= 0 and (style & 64) and (style & 2):
+                boxer.first = f"b{first}"          # a name given before make is resolved by resolve()
+            boxer.make(fun)
+            if first >= 0 and (style & 64) and not (style & 2):
+                boxer.first = boxer.boxes[f"b{first}"]
+    st["boxer"] = boxer
+
+    # optional neighbour: another boxer on the same hold, two boxes flipping every pass, ended early
+    nb_step = None
+    if neighbour and mode != 2:
+        nboxer = boxing.Boxer(name=BOXER + "2", hold=hold)
+
+        def nfun(H, bx, go, do, on, at, be):
+            bx(name="n0", over=None)
+            go("n1")
+            bx(name="n1", over=None)
+            go("n0")
+        nboxer.make(nfun)
+        nkey = ("", "boxer", BOXER + "2", "end")
+        hold[nkey] = bagging.Bag()
+        nrung = nboxer.run(tock=1.0)
+        nstate = dict(alive=True, n=0)
+
+        def nb_step():
+            if not nstate["alive"]:
+                return
+            try:
+                if nstate["n"] == 0:
+                    next(nrung)
+                else:
+                    nrung.send(float(nstate["n"]))
+            except StopIteration:
+                nstate["alive"] = False
+            nstate["n"] += 1
+            if nstate["n"] == 3:
+                hold[nkey].value = True
 
     out = []
-    final = ("live",)
-    rung = boxer.run(tock=1.0)
-    for t in range(ticks + 1):
-        st["t"] = t
-        st["log"] = []
-        if t == endat:
-            hold[endkey].value = True
-        try:
-            if t == 0:
-                next(rung)
-            else:
-                rung.send(float(t))
-        except StopIteration as ex:
-            final = ("ret", bool(ex.value) if ex.value is not None else None)
-        except (TypeError, AttributeError, IndexError, KeyError, ValueError, RecursionError) as ex:
-            final = ("exc", type(ex).__name__)
-        act = idx[boxer.box.name] if boxer.box is not None else None
-        out.append((t, act, tuple(st["log"])))
-        if final != ("live",):
-            break
-    out.append(final)
+    for round_ in range(2 if (rerun and mode != 2) else 1):
+        final = ("live",)
+        hold[endkey].value = None
+        rung = None
+        doist = None
+        for t in range(ticks + 1):
+            st["t"] = t
+            st["log"] = []
+            if t == endat:
+                hold[endkey].value = True
+            try:
+                if mode == 2:
+                    if t == 0:
+                        doer = boxing.BoxerDoer(boxer=boxer, tock=1.0)
+                        doist = doing.Doist(tock=1.0, real=False, doers=[doer])
+                        doist.enter()
+                    else:
+                        doist.recur()
+                    if not doist.deeds:
+                        final = ("ret", doer.done if doer.done is None else bool(doer.done))
+                else:
+                    if t == 0:
+                        rung = boxer.run(tock=1.0)
+                        next(rung)
+                    else:
+                        rung.send(float(t))
+            except StopIteration as ex:
+                final = ("ret", bool(ex.value) if ex.value is not None else None)
+            except core.Infra:
+                raise
+            except BaseException as ex:   # whatever the real code lets escape is an observation
+                final = ("exc", type(ex).__name__)
+            if nb_step:
+                nb_step()
+            act = idx.get(boxer.box.name) if boxer.box is not None else None
+            out.append((t, act, tuple(st["log"])))
+            if final != ("live",):
+                break
+        out.append(final)
+        if rung is not None:
+            rung.close()
+        if doist is not None:
+            try:
+                doist.exit()
+            except BaseException:
+                pass
     return tuple(out)
 
 
 def request(case):
-    boxes, first, ticks, endat = case
+    boxes, first, ticks, endat, (style, mode, raises, enders, rerun, neighbour) = parts(case)
     return ("run",
             tuple((p + 1, tuple(c), tuple(pres), tuple((d, m) for d, m in gos)) for p, c, pres, gos in boxes),
-            first + 1, ticks, endat + 1)
+            first + 1, ticks, endat + 1,
+            tuple((b, nb, k, t, nm) for (b, nb, k, t, nm) in raises),
+            tuple((b, nb, k) for (b, nb, k) in enders),
+            1 if (rerun and mode != 2) else 0)
 
 
 # --------------------------------------------------------------------------
